@@ -17,7 +17,7 @@ type c17Case struct {
 
 func CheckC17(l *Lab, verifDir string) int {
 	rep := NewReport("C17", l.Tier, l.Seed, "exploration", verifDir)
-	rep.Rule = "real handshakes against the real binary in all four server settings {cookie auth, smart card} with OpenID for cookie auth, plus cookie auth (with / without smart card) behind NTLM without OpenID: client capability values (quick: 0..1023, every one- and two-bit value, 2000 PRNG values; thorough: all 65536) with version bytes cycling, plus version-pair sweeps at four capability values; oracle ok(server,client) := both empty or share a bit; success must advertise exactly the server bits and echo the version bytes and the next step must be answered; failure must answer capability-mismatch and end the tunnel. non-trivial = a handshake response was received; distinct = server setting x client value x version pair x transport"
+	rep.Rule = "real handshakes against the real binary in all four server settings {cookie auth, smart card} with OpenID for cookie auth, plus cookie auth (with / without smart card) behind NTLM without OpenID: client capability values (quick: 0..1023, every one- and two-bit value, 2000 PRNG values; thorough: all 65536) with version bytes cycling, plus version-pair sweeps at four capability values, plus handshake requests cut to 0..5 body bytes (no extended-authentication field: no mechanism offered; must not succeed when the server requires a mechanism); oracle ok(server,client) := both empty or share a bit; success must advertise exactly the server bits and echo the version bytes and the next step must be answered; failure must answer capability-mismatch and end the tunnel. non-trivial = a handshake response was received; distinct = server setting x client value x version pair x transport"
 	rep.SetExhaustive(!l.Quick())
 	rnd := NewRand(l.Seed, "c17")
 	var values []uint16
@@ -115,6 +115,13 @@ func CheckC17(l *Lab, verifDir string) int {
 		}
 		close(jobs)
 		wg.Wait()
+		// handshake requests whose body ends before or inside the extended-authentication field offer no
+		// mechanism: they must not succeed when the server requires one
+		for n := 0; n <= 5; n++ {
+			for _, tr := range Transports() {
+				c17Truncated(rep, f, server, n, tr)
+			}
+		}
 		if !f.GW.Alive() {
 			rep.Violate("C17/gateway-exited", "gateway exited during the handshake sweep", f.GW.LogTail(2000))
 		}
@@ -205,5 +212,35 @@ func c17One(rep *Report, f *Fixture, server uint16, c c17Case) {
 	if (c.caps%977 == 0 || c.caps == 2) && c.major == 1 {
 		rep.Sample(map[string]any{"server_caps": server, "client_caps": c.caps, "version": []byte{c.major, c.minor}, "expected_ok": ok,
 			"status": r.Status, "advertised": r.ExtAuth, "transport": c.transport})
+	}
+}
+
+// c17Truncated sends a handshake request whose body is the first n (< 6) bytes of a request that
+// would have offered every mechanism. Such a client offers none: when the server requires a mechanism
+// the handshake must not succeed (a mismatch / error status or the end of the tunnel are both
+// refusals); when the server requires none, any reaction is allowed.
+func c17Truncated(rep *Report, f *Fixture, server uint16, n int, tr string) {
+	env := f.Env(tr)
+	t, _, err := env.OpenTunnel(NewConnID("ht"))
+	if err != nil || t == nil {
+		rep.Inconclusive(fmt.Sprintf("open tunnel (truncated handshake): %v", err))
+		return
+	}
+	defer t.Close()
+	W := 5 * time.Second
+	full := HandshakeReq(1, 0, 0, 0xffff)
+	body := full[8 : 8+n]
+	t.Send(Packet(PktHandshakeReq, body))
+	t.WaitPackets(1, W)
+	s := t.Snapshot()
+	st := uint32(0xFFFFFFFF)
+	if len(s.Packets) > 0 {
+		st, _ = LenientStatus(s.Packets[0].Raw)
+	}
+	rep.Eval(HashStr("truncated", server, n, tr, st))
+	rep.Count("truncated_handshakes", 1)
+	if server != 0 && len(s.Packets) > 0 && st == 0 {
+		rep.Violate("C17/accepted-without-mechanism/truncated-handshake", fmt.Sprintf("server caps %#x, %s: a handshake request with a %d-byte body (no extended-authentication field, so no mechanism offered) was answered with success", server, tr, n),
+			map[string]any{"server_caps": server, "body_bytes": n, "transport": tr, "trace": s.Log})
 	}
 }
